@@ -450,6 +450,62 @@ func main() -> int
     0
 }
 """]},
+    {"name": "forin-braceless", "construct": "for-in whose body is a single expression, not a block, containing a function literal that captures the loop variable (arrays, slices, ranges)",
+     "merges": [("E", "X"), ("E2", "X2"), ("I3", "X3")],
+     "alt_desc": ["the same loops with the body written as a block"],
+     "srcs": ["""
+func apply(f() -> int) -> int { f() }
+func fa(a[D] : int, {X} : int) -> int
+{
+    var s = 0;
+    for ({E} in a) s = s * 2 + apply(let func () -> int { {E} + {#1} });
+    s + {X} * 100000
+}
+func fb(a[D] : int, {X2} : int) -> int
+{
+    var s = 0;
+    for ({E2} in a[1 .. D - 2]) s = s + apply(let func () -> int { {E2} * 3 });
+    s + {X2}
+}
+func fr({X3} : int) -> int
+{
+    var s = 0;
+    for ({I3} in [ 4 .. 2 ]) s = s * 10 + apply(let func () -> int { {I3} });
+    s + {X3} * 1000
+}
+func main() -> int
+{
+    let a = [ 1, 2, 3, 4, 5 ] : int;
+    print(fa(a, {#2})); print(fb(a, {#3})); print(fr({#4}));
+    0
+}
+""", """
+func apply(f() -> int) -> int { f() }
+func fa(a[D] : int, {X} : int) -> int
+{
+    var s = 0;
+    for ({E} in a) { s = s * 2 + apply(let func () -> int { {E} + {#1} }) };
+    s + {X} * 100000
+}
+func fb(a[D] : int, {X2} : int) -> int
+{
+    var s = 0;
+    for ({E2} in a[1 .. D - 2]) { s = s + apply(let func () -> int { {E2} * 3 }) };
+    s + {X2}
+}
+func fr({X3} : int) -> int
+{
+    var s = 0;
+    for ({I3} in [ 4 .. 2 ]) { s = s * 10 + apply(let func () -> int { {I3} }) };
+    s + {X3} * 1000
+}
+func main() -> int
+{
+    let a = [ 1, 2, 3, 4, 5 ] : int;
+    print(fa(a, {#2})); print(fb(a, {#3})); print(fr({#4}));
+    0
+}
+"""]},
     {"name": "catch-clause", "construct": "catch-clause bodies (see the parameters and the definition scope, not the locals of the body)",
      "merges": [("L", "G"), ("M", "L"), ("L2", "G2"), ("M2", "Q2"), ("L3", "P3")],
      "srcs": ["""
